@@ -164,7 +164,12 @@ func (l *s3Lister) listCompleted(ctx context.Context, filter map[string]map[int3
 		}
 
 		ok, err := l.hasFooterMagic(ctx, entry.kfsKey)
-		if err != nil || !ok {
+		if err != nil {
+			// A transient read error must not make this segment look absent:
+			// later segments would be processed and checkpointed past it.
+			return nil, fmt.Errorf("check segment footer %s: %w", entry.kfsKey, err)
+		}
+		if !ok {
 			continue
 		}
 
